@@ -21,14 +21,6 @@ def admissible (c : Cluster) : Bool :=
 /-- the validating webhook of Rollout rejects a strategy with neither `canary` nor `blueGreen` -/
 def strategyOK (s : Strategy) : Bool := s.blueGreen || s.canary.isSome
 
-/-- **Guard `replicaSetRef`** (finding): the reference names an existing apps/v1 ReplicaSet and the style consults the
-    StatefulSet-like finder.  `IsSupportedWorkload` (hence the validating webhook) accepts the kind, `GetEmptyWorkloadObject`
-    returns a typed ReplicaSet, and `ParseWorkload` → `GetMetadata` panics on it. -/
-def replicaSetRef (c : Cluster) (s : Strategy) (ns : String) (ref : Ref) : Bool :=
-  !s.blueGreen &&
-  getEmptyWorkloadObject c.filter (fromAPIVersionAndKind ref.apiVersion ref.kind) == some .replicaSet &&
-  (lookup ReplicaSet.m c.replicaSets ns ref.name).isSome
-
 def noPanic (o : Out) : Bool := o != .panic
 
 /-! ### dispatch table -/
@@ -256,7 +248,7 @@ def present (c : Cluster) (ns : String) (ref : Ref) : FinderId → Bool
   | .stsLike =>
     match getEmptyWorkloadObject c.filter (fromAPIVersionAndKind ref.apiVersion ref.kind) with
     | none => false
-    | some .replicaSet => (lookup ReplicaSet.m c.replicaSets ns ref.name).isSome
+    | some .replicaSet => false
     | some .daemonSet => (lookup DaemonSet.m c.daemonSets ns ref.name).isSome
     | some .deployment => (lookup Deployment.m c.deployments ns ref.name).isSome
     | some .cloneSet => (lookup CloneSet.m c.cloneSets ns ref.name).isSome
